@@ -581,13 +581,23 @@ Definition next_hidden (s : state) : option event :=
     end
   else None.
 
-Fixpoint quiesce (fuel : nat) (s : state) : option state :=
+(* The harness can keep the feeder goroutine from running - deterministically, without touching the code - by
+   making the first recovered chunk file a FIFO: the feeder blocks in open(2) inside LoadChunk until the harness
+   opens the FIFO for writing.  [hold = Some n]: the feeder does not get past the load of the chunk named n. *)
+Definition stalled (hold : option name) (s : state) : bool :=
+  match hold, st_fpc s with
+  | Some n, FLoad c => st_up s && name_eqb (c_id c) n
+  | _, _ => false
+  end.
+
+Fixpoint quiesce (hold : option name) (fuel : nat) (s : state) : option state :=
+  if stalled hold s then Some s else
   match next_hidden s with
   | None => Some s
   | Some e =>
     match fuel with
     | O => None
-    | S f => match step s e with Some s' => quiesce f s' | None => None end
+    | S f => match step s e with Some s' => quiesce hold f s' | None => None end
     end
   end.
 
@@ -602,19 +612,64 @@ Definition observe (s : state) : list Z :=
 
 Definition mix (h v : Z) : Z := ((h * 1000003 + (v mod 4294967296) + 7) mod 4294967296)%Z.
 
+(* operations of the harness: an event of the LTS; or "plant an empty FIFO under name n, start a bufferer, and
+   let the feeder run only up to the load of n" (two events: ETamper, ERestart); or "let the feeder go on"
+   (no event: scheduling only) *)
+Inductive rop :=
+| ROp (e : event)
+| RHold (n : name) (Q M : nat) (maxb : Z)
+| RRelease.
+
+Definition events_of (o : rop) : list event :=
+  match o with
+  | ROp e => [e]
+  | RHold n Q M maxb => [ETamper n (Some (EFile [])); ERestart Q M maxb true]
+  | RRelease => []
+  end.
+
+(* while the feeder is held the harness only accepts chunks, registers consumers and touches foreign files *)
+Definition allowed_while_held (e : event) : bool :=
+  match e with
+  | EAccept _ _ _ | ERegister => true
+  | ETamper n _ => negb (matchf n)
+  | _ => false
+  end.
+
+(* the held chunk must be the first one recovered *)
+Definition sorts_first (n : name) (d : dirT) : bool :=
+  negb (existsb (fun m => matchf m && negb (name_eqb m id_file_name) && name_ltb m n) (dir_names d)).
+
 (* inl (final state, hash of all observations)  |  inr (index of the operation that is not enabled) *)
-Fixpoint replay (i : nat) (ops : list event) (s : state) (h : Z) : (state * Z) + nat :=
+Fixpoint replay (i : nat) (ops : list rop) (hold : option name) (s : state) (h : Z) : (state * Z) + nat :=
   match ops with
   | [] => inl (s, h)
-  | e :: ops' =>
-    if is_hidden e then inr i else
-    match step s e with
-    | None => inr i
-    | Some s1 =>
-      match quiesce (quiesce_fuel s1) s1 with
+  | o :: ops' =>
+    let go (s1 : state) (hold' : option name) :=
+      match quiesce hold' (quiesce_fuel s1) s1 with
       | None => inr i
-      | Some s2 => replay (S i) ops' s2 (fold_left mix (observe s2) h)
+      | Some s2 => replay (S i) ops' hold' s2 (fold_left mix (observe s2) h)
+      end in
+    match o with
+    | ROp e =>
+      if is_hidden e then inr i
+      else if match hold with Some _ => negb (allowed_while_held e) | None => false end then inr i
+      else match step s e with
+           | None => inr i
+           | Some s1 => go s1 hold
+           end
+    | RHold n Q M maxb =>
+      match hold with
+      | Some _ => inr i
+      | None =>
+        if sorts_first n (st_dir s) then
+          match run s (events_of o) with
+          | None => inr i
+          | Some s1 => go s1 (Some n)
+          end
+        else inr i
       end
+    | RRelease =>
+      if stalled hold s then go s None else inr i
     end
   end.
 
@@ -628,6 +683,8 @@ End Buffer.
      3 Register  4 Take   5 Consumed a=index   6 Leftover a=index c=write script
      7 Finish    8 Destroy  9 Crash
      10 Tamper   a=name b=kind (0 remove, 1 file with data c, 2 sub-directory)
+     12 Hold     a=name b=1000*Q+M c=maxBytes: empty FIFO under the name, Restart, feeder stops at its load
+     13 Release  the feeder goes on
    write script  c = kind + 16*n:  0 none, 1 open fails, 2 rename fails, 3 short write of n bytes without
      error, 4 write error after n bytes, 5..8 killed at kill point 1..4 (n bytes written), 9 close fails.
    The matcher is the one of the fluentd-forward output: strings.HasSuffix(id, ".ff"). *)
@@ -657,7 +714,7 @@ Definition decode_ws (c : Z) : wscript :=
 
 Definition pool_get (pool : list bytes) (i : Z) : bytes := nth (Z.to_nat i) pool [].
 
-Fixpoint parse_ops (fuel : nat) (pool : list bytes) (zs : list Z) : option (list event) :=
+Fixpoint parse_ops (fuel : nat) (pool : list bytes) (zs : list Z) : option (list rop) :=
   match zs with
   | [] => Some []
   | opc :: a :: b :: c :: zs' =>
@@ -665,20 +722,22 @@ Fixpoint parse_ops (fuel : nat) (pool : list bytes) (zs : list Z) : option (list
     | O => None
     | S f =>
       let ev :=
-        if (opc =? 1)%Z then Some (ERestart (Z.to_nat a) (Z.to_nat b) c true)
-        else if (opc =? 11)%Z then Some (ERestart (Z.to_nat a) (Z.to_nat b) c false)
-        else if (opc =? 2)%Z then Some (EAccept (pool_get pool a) (pool_get pool b) (decode_ws c))
-        else if (opc =? 3)%Z then Some ERegister
-        else if (opc =? 4)%Z then Some EConsTake
-        else if (opc =? 5)%Z then Some (EConsumed (Z.to_nat a))
-        else if (opc =? 6)%Z then Some (ELeftover (Z.to_nat a) (decode_ws c))
-        else if (opc =? 7)%Z then Some EConsFinish
-        else if (opc =? 8)%Z then Some EDestroy
-        else if (opc =? 9)%Z then Some ECrash
+        if (opc =? 1)%Z then Some (ROp (ERestart (Z.to_nat a) (Z.to_nat b) c true))
+        else if (opc =? 11)%Z then Some (ROp (ERestart (Z.to_nat a) (Z.to_nat b) c false))
+        else if (opc =? 2)%Z then Some (ROp (EAccept (pool_get pool a) (pool_get pool b) (decode_ws c)))
+        else if (opc =? 3)%Z then Some (ROp ERegister)
+        else if (opc =? 4)%Z then Some (ROp EConsTake)
+        else if (opc =? 5)%Z then Some (ROp (EConsumed (Z.to_nat a)))
+        else if (opc =? 6)%Z then Some (ROp (ELeftover (Z.to_nat a) (decode_ws c)))
+        else if (opc =? 7)%Z then Some (ROp EConsFinish)
+        else if (opc =? 8)%Z then Some (ROp EDestroy)
+        else if (opc =? 9)%Z then Some (ROp ECrash)
         else if (opc =? 10)%Z then
-          Some (ETamper (pool_get pool a)
+          Some (ROp (ETamper (pool_get pool a)
                         (if (b =? 0)%Z then None
-                         else if (b =? 1)%Z then Some (EFile (pool_get pool c)) else Some EDir))
+                         else if (b =? 1)%Z then Some (EFile (pool_get pool c)) else Some EDir)))
+        else if (opc =? 12)%Z then Some (RHold (pool_get pool a) (Z.to_nat (b / 1000)) (Z.to_nat (b mod 1000)) c)
+        else if (opc =? 13)%Z then Some RRelease
         else None in
       match ev, parse_ops f pool zs' with
       | Some e, Some es => Some (e :: es)
@@ -728,7 +787,7 @@ Definition run_case_C03 (c : case) : bytes :=
   | dirsize :: zs =>
     match parse_ops (length zs) (c_sargs c) zs with
     | Some ops =>
-      match replay match_ff dirsize 0 ops (init []) 0 with
+      match replay match_ff dirsize 0 ops None (init []) 0 with
       | inl (s, h) => show_state s h
       | inr i => str_reject ++ colon :: dec_of_Z (Z.of_nat i)
       end
